@@ -275,4 +275,56 @@ theorem deleteTableOld_counterexample :
       ((Meta.ofList [⟨1, "logs".toList, 1, 0, 10⟩, ⟨4, "logs".toList, 2, 0, 10⟩]).deleteTableOld "logs".toList 1) = [] := by
   decide +kernel
 
+/-! ## 6. Stream ids keep (organisation, index) pairs apart -/
+
+/-- C13.6 The coded format `"<shard>-<org>-<hash(index)>"`, for EVERY hash function: two stream ids are the
+same string only if shard, organisation and the hash of the index name agree — the organisation is
+rendered OUTSIDE the hash and the string parses uniquely (decimal renderings contain no `-` except the
+sign of the organisation, and are injective). -/
+theorem stream_id_separates (H : Name → Nat) (s s' : Nat) (o o' : Org) (i i' : Name)
+    (h : streamId H s o i = streamId H s' o' i') : s = s' ∧ o = o' ∧ H i = H i' :=
+  streamId_parse H s s' o o' i i' h
+
+/-- … hence, for a collision-free hash, only if (organisation, index) agree: an open segment store is never
+shared between two organisations or two indexes. -/
+theorem stream_id_injective (H : Name → Nat) (hH : ∀ a b, H a = H b → a = b) (s s' : Nat) (o o' : Org) (i i' : Name)
+    (h : streamId H s o i = streamId H s' o' i') : o = o' ∧ i = i' :=
+  let ⟨_, ho, hi⟩ := streamId_parse H s s' o o' i i' h
+  ⟨ho, hH _ _ hi⟩
+
+/-- the statement on the PRE-IMAGE (no assumption on the hash at all): the text outside the hash together
+with the hashed string determines (organisation, index). -/
+theorem stream_preimage_injective (o o' : Org) (i i' : Name) (h : streamPre o i = streamPre o' i') : o = o' ∧ i = i' := by
+  simp only [streamPre, Prod.mk.injEq] at h
+  exact ⟨decInt_injective h.1, h.2⟩
+
+/-- why the organisation must stay outside: hashing `<org><index>` as ONE string makes different
+(organisation, index) pairs share a pre-image — org 1 / `0app` and org 10 / `app`; org 2 / `17-logs` and
+org 21 / `7-logs`. (`streamPreConcat` is NOT the code.) -/
+theorem streamPreConcat_counterexample :
+    streamPreConcat 1 "0app".toList = streamPreConcat 10 "app".toList ∧
+    streamPreConcat 2 "17-logs".toList = streamPreConcat 21 "7-logs".toList := by
+  simp [streamPreConcat, decInt, decNat, digitChar]
+
+/-- non-vacuity: the coded ids of those pairs differ for any hash -/
+example (H : Name → Nat) : streamId H 0 1 "0app".toList ≠ streamId H 0 10 "app".toList :=
+  fun h => absurd (stream_id_separates H 0 0 1 10 _ _ h).2.1 (by decide)
+
+/-! ## 7. End to end: a search returns only records of the requesting organisation in named indexes -/
+
+/-- C13.7 (composition of 1–3 on the record level) whatever was ingested by whichever organisation, the
+records visible to a search of `org` over `expr` were ingested by `org`, into an index that the expansion
+of `expr` for `org` returned — hence (theorem 2) an index the expression names. -/
+theorem visible_only_own_named (recs : List Rec) (org : Org) (expr : Name) (r : Rec) (h : r ∈ visible recs org expr) :
+    r ∈ recs ∧ r.org = org ∧
+    r.index ∈ expand expr org false (recs.foldl (fun acc r => addTable r.org r.index acc) []) [] := by
+  simp only [visible, List.mem_filter, Bool.and_eq_true, decide_eq_true_eq, List.contains_iff_mem] at h
+  exact ⟨h.1, h.2.1, h.2.2⟩
+
+/-- non-vacuity: digit-prefixed and prefix-related names over multi-digit organisations -/
+example : (visible [⟨1, 1, "0app".toList⟩, ⟨2, 10, "app".toList⟩, ⟨3, 1, "app".toList⟩, ⟨4, 1, "app2".toList⟩] 1 "*app".toList).map (·.id)
+    = [1, 3] := by decide +kernel
+example : (visible [⟨1, 1, "0app".toList⟩, ⟨2, 10, "app".toList⟩, ⟨3, 1, "app".toList⟩, ⟨4, 1, "app2".toList⟩] 10 "*".toList).map (·.id)
+    = [2] := by decide +kernel
+
 end SigModel.Props.C13
